@@ -3,6 +3,7 @@
 package tsi
 
 import (
+	"regexp"
 	"regexp/syntax"
 )
 
@@ -63,3 +64,23 @@ func (v *VerifC10TagFilter) SetRegexMatchAll(b bool) { v.tf.SetRegexMatchAll(b) 
 
 // MatchSuffix is tagFilter.matchSuffix: b is the marshaled rest of a tag value after Prefix, including the separator.
 func (v *VerifC10TagFilter) MatchSuffix(b []byte) (bool, error) { return v.tf.matchSuffix(b) }
+
+// VerifC10AnchoredOrValues is anchoredOrValues.
+func VerifC10AnchoredOrValues(expr string) []string { return anchoredOrValues(expr) }
+
+// VerifC10AnchoredLiteralPrefix is anchoredLiteralPrefix.
+func VerifC10AnchoredLiteralPrefix(expr string) []byte { return anchoredLiteralPrefix(expr) }
+
+// VerifC10RegexMatchesEverything is regexMatchesEverything.
+func VerifC10RegexMatchesEverything(expr string) bool {
+	re, err := regexp.Compile(expr)
+	if err != nil {
+		return false
+	}
+	return regexMatchesEverything(re)
+}
+
+// VerifC10MaxOrValues is the constant maxOrValues; VerifC10EscapeBytes are the bytes marshalTagValue escapes.
+const VerifC10MaxOrValues = maxOrValues
+
+var VerifC10EscapeBytes = [3]byte{escapeChar, tagSeparatorChar, kvSeparatorChar}
